@@ -276,6 +276,10 @@ pub trait Machine: Clone {
     /// PingReq, Disconnect, PubAck/PubRec as the user's manual acknowledgement, PubRel)
     fn make_req(p: &Pk) -> Self::Req;
     fn view_req(r: &Self::Req) -> Pk;
+    /// What `poll()` does to the state when the CONNACK reports no session. 3.1.1:
+    /// `last_pkid = 0; last_puback = 0` (crate-private fields; after `clean()` and with
+    /// `pending` dropped that is a fresh state that keeps the event queue). MQTT 5: nothing.
+    fn session_reset(&mut self, max_inflight: u16, manual_acks: bool);
 }
 
 // ------------------------------------------------------------------ 3.1.1
@@ -500,6 +504,15 @@ mod v4 {
                 Request::SubAck(_) => Pk::Other("SubAck".into()),
                 Request::UnsubAck(_) => Pk::Other("UnsubAck".into()),
             }
+        }
+        fn session_reset(&mut self, max_inflight: u16, manual_acks: bool) {
+            // only sound right after clean(): nothing is held, nothing is parked
+            if self.inflight() != 0 || self.collision.is_some() || !self.clone().clean().is_empty() {
+                return;
+            }
+            let events = std::mem::take(&mut self.events);
+            *self = c::MqttState::new(max_inflight, manual_acks);
+            self.events = events;
         }
     }
 }
@@ -869,6 +882,7 @@ mod v5 {
                 Request::UnsubAck(_) => Pk::Other("UnsubAck".into()),
             }
         }
+        fn session_reset(&mut self, _max_inflight: u16, _manual_acks: bool) {}
     }
 }
 
@@ -1092,7 +1106,11 @@ impl<M: Machine> S2<M> {
         let st = &mut self.st;
         match guarded(|| st.clean()) {
             Ok(reqs) => {
-                self.pending.extend(reqs);
+                // what was in flight on this connection goes in front of what is still pending
+                // from an earlier one (eventloop.rs clean())
+                let mut p: VecDeque<M::Req> = reqs.into();
+                p.append(&mut self.pending);
+                self.pending = p;
                 Ok(())
             }
             Err(p) => {
@@ -1108,6 +1126,8 @@ impl<M: Machine> S2<M> {
         assert!(!self.connected && !self.dead);
         if !session_present {
             self.pending.clear();
+            // the 3.1.1 event loop starts packet ids over together with the session
+            self.st.session_reset(self.limit_cfg, self.manual);
         }
         self.connected = true;
         self.conn += 1;
@@ -1159,9 +1179,18 @@ pub fn held_of<M: Machine>(st: &M) -> Result<Held, PanicInfo> {
     let mut c = st.clone();
     let reqs = guarded(move || c.clean())?;
     let mut h = Held::default();
+    // `clean()` may hand the parked collision over with the rest; it is reported separately
+    // (`collision()`), so it is not counted among the publishes that were written
+    let mut parked = st.collision();
     for r in reqs {
         match M::view_req(&r) {
-            p @ Pk::Publish { .. } => h.pubs.push(p),
+            p @ Pk::Publish { .. } => {
+                if parked.as_ref() == Some(&p) {
+                    parked = None;
+                    continue;
+                }
+                h.pubs.push(p)
+            }
             Pk::PubRel { pkid, .. } => h.rels.push(pkid),
             _ => {}
         }
